@@ -72,11 +72,24 @@ CHECKS = {
          "Not decided: exactness over every directory content as a whole, invariance under all histories."),
 }
 
+# clauses added in round 3 (after the third round of seeded changes), appended to the level text
+EXTRA = {
+ "C05": " Also: the reply is never written under a connection deadline armed before the request was read or the callback ran; the decode loop calls Scan() only while a part is missing.",
+ "C06": " Also: the AEAD.Open nonce-length precondition (found and repaired: F10) and the expiry window of the session check (rule instance shared with C07.4).",
+ "C07": " Also: on every path into AEAD.Open the nonce length is known to equal NonceSize() (found and repaired: F10).",
+ "C13": " Also: every decoding entry point (Decode, Unmarshal) either delegates to Decode over the whole input or is itself subject to the decode rules; Scan() only while a part is missing.",
+ "C14": " Also: nothing in the constructor writes the HMAC key buffer that scryptauth.New retains (retention read from the dependency's SSA).",
+ "C15": " Also: a succeeding exit is reached only after the rename and nothing unlinks the final name after it.",
+ "C18": " Also: no type below the decoded configuration root re-decodes itself through yaml.Node.Decode (which drops KnownFields) and there is no inline map.",
+ "C20": " Also: loop progress — every iteration of the transfer loops that goes round again has transferred a non-zero count (found and repaired: F11, spin on a stale errno after an early close).",
+}
+
 checks = []
 for pid in props:
     if pid not in CHECKS:
         continue
     tech, text, note = CHECKS[pid]
+    text += EXTRA.get(pid, "")
     checks.append({
         "property_id": pid,
         "quick_cmd": f"./run.sh {pid} quick",
